@@ -6,6 +6,9 @@ import Gsp.Model.Xsd
 import Gsp.Model.Rdf
 import Gsp.Model.Smt
 import Gsp.Model.Mz
+import Gsp.Model.Safe
+import Gsp.Model.Codec
+import Gsp.Model.HasherCfg
 /-! Line-protocol driver: one JSON case per line on stdin, one `{"id","out"}` per line on stdout. Core-only. -/
 open Lean Gsp
 
@@ -193,6 +196,16 @@ def opMzDoc (k : Pos.Consts) (inp : Json) : Except String Json := do
       ("leaves", Json.num (Smt.leaves mz.tree).length),
       ("q", Json.arr qres.toArray)]))
 
+/-- safe / unsafe mode on top of mz.doc: `ds` is the dataset of the document without its undefined properties -/
+def opMzSafe (k : Pos.Consts) (inp : Json) : Except String Json := do
+  let safe ← (← inp.getObjVal? "safe").getBool?
+  let und ← (← inp.getObjVal? "undefined").getNat?
+  let h ← hasherOf k (← inp.getObjVal? "h")
+  let ds ← datasetOf (← inp.getObjVal? "ds")
+  match Safe.merklize (canonTable inp) (cachedHasher h (dsStrings ds)) safe ⟨ds, und⟩ with
+  | .error e => pure (errJ e)
+  | .ok _ => opMzDoc k inp
+
 /-- pure SMT op stream -/
 def opSmtRun (k : Pos.Consts) (inp : Json) : Except String Json := do
   let P := treeHash k
@@ -225,6 +238,7 @@ def handle (k : Pos.Consts) (op : String) (inp : Json) : Except String Json :=
   | "xsd.hash" => opXsdHash k inp
   | "rdf.entries" => opRdfEntries k inp
   | "mz.doc" => opMzDoc k inp
+  | "mz.safe" => opMzSafe k inp
   | "smt.run" => opSmtRun k inp
   | _ => throw s!"unknown op {op}"
 
